@@ -56,7 +56,12 @@ pub fn read(
     let disconnect = Disconnect {
         reason_code: reason(reason_code)?,
     };
-    let properties = properties::read(&mut bytes)?;
+    // with a remaining length below 2 there is no property length: 0 is used (MQTT 5, 3.14.2.2.1)
+    let properties = if fixed_header.remaining_len < 2 {
+        None
+    } else {
+        properties::read(&mut bytes)?
+    };
 
     Ok((disconnect, properties))
 }
